@@ -10,6 +10,9 @@ import Ops.Symbols
 import Ops.E2EProps
 import Ops.IO
 import Ops.SeqEnc
+import Ops.EncBuf
+import Ops.C0506
+import Ops.KdTree
 /- Line-protocol driver of the executable model: one op per line in, one line out. -/
 open Draco
 
@@ -25,6 +28,9 @@ def allOps : List (String × (List String → String)) := List.flatten [
   Ops.symbolOps,
   Ops.ioOps,
   Ops.seqEncOps,
+  Ops.encBufOps,
+  Ops.c0506Ops,
+  Ops.kdTreeOps,
   Ops.e2ePropsOps]
 
 def dispatch (line : String) : String :=
